@@ -11,7 +11,10 @@ META.update({
     "level_text": "Theorem C08_no_panic_no_spin: for every script whatsoever (any number of worker deaths at any point incl. inside the send/inc gap, any "
                   "teardown order, late availability notices, replacement handles arriving in any order, pause/resume/stop, injected errors) the accept "
                   "thread never indexes out of bounds, never hits the Availability panic, never computes `% 0`, and accept_one / forced send / handle_waker "
-                  "terminate within the model's fuel. The model is tied to the code by running generated fault scripts (and the D2 regression histories) on the "
+                  "terminate within the model's fuel. C08_resume: from ANY reachable state whose waker queue holds a replacement's handle, one handle_waker call "
+                  "leaves the queue drained and every flagged worker exhausted or EVERY listener's backlog empty (service resumes once the replacement is up); "
+                  "C08_no_strand: in every state of every run, faults included, a waiting connection has a registered listener with a pending edge or an armed "
+                  "back-off. The model is tied to the code by running generated fault scripts (and the D2 regression histories) on the "
                   "real Accept through the stepped driver with a kill operation; a panic is caught, a spin is detected by a per-case watchdog; the predicate "
                   "(no panic/spin, no dispatch to a dead generation, one fault notice per dead generation, every live generation back in the rotation once "
                   "the waker queue is drained) is evaluated on the implementation trace.",
